@@ -592,8 +592,8 @@ def verdicts(parts, imp, mock):
     c04 = c05 = True
     for sig in all_sigs():
         ev, out, d = run_ladder(parts, sig, mock)
-        if not (d.p == 0 and d.o == 0 and "unknown" not in ev):
-            c05 = False
+        if not (d.p == 0 and d.o == 0 and "unknown" not in ev and not d.hit_empty):
+            c05 = False       # (never popping an empty stack: what makes the ladder safe inside another execution)
         caps = [e.split(":")[1] for e in ev if e.startswith("captureOk:")]
         slot = None
         for e in ev:
